@@ -17,20 +17,20 @@ import (
 
 func init() {
 	Register(&Scenario{
-		Name: "webseed", Props: []string{"C14"}, CrashTo: "C14",
+		Name: "webseed", Knobs: true, Props: []string{"C14"}, CrashTo: "C14",
 		Horizon: 6 * time.Hour, MaxSteps: 2000000, Weight: 1, Main: webseedMain,
 	})
 }
 
 type wsRequest struct {
-	hoffman bool
-	path    []string // GetRight: file path relative to the base
-	lo, hi  int64    // GetRight: requested byte range of the file [lo, hi]
-	piece   int64    // Hoffman
-	ranges  string   // Hoffman: the ranges parameter
-	tlo, thi int64   // the torrent range this maps to (-1 if none)
+	hoffman   bool
+	path      []string // GetRight: file path relative to the base
+	lo, hi    int64    // GetRight: requested byte range of the file [lo, hi]
+	piece     int64    // Hoffman
+	ranges    string   // Hoffman: the ranges parameter
+	tlo, thi  int64    // the torrent range this maps to (-1 if none)
 	behaviour int
-	epoch   int
+	epoch     int
 }
 
 type refWeb struct {
